@@ -24,6 +24,7 @@ type verifyWorld struct {
 	ktm      *world.KeytabModel
 	settings *service.Settings
 	alt      *service.Settings // a second settings object of the same process with another clock skew
+	alt2     *service.Settings // a third one, whose skew is the longest
 	base     time.Time
 }
 
@@ -54,6 +55,9 @@ func newVerifyWorld(tp *Tape, base time.Time) (*verifyWorld, error) {
 			opts = append(opts, service.KeytabPrincipal("HTTP/a"+strings.TrimPrefix(tp.AltKt, "s")))
 		}
 		w.alt = service.NewSettings(kt, opts...)
+	}
+	if tp.Alt2Ms != 0 {
+		w.alt2 = service.NewSettings(kt, service.MaxClockSkew(time.Duration(tp.Alt2Ms)*time.Millisecond), service.DecodePAC(false))
 	}
 	return w, nil
 }
@@ -95,7 +99,9 @@ func (w *verifyWorld) present(op Op, ct time.Time) string {
 	}
 	st := w.settings
 	throughAlt := false
-	if op.Alt && w.alt != nil && (w.tp.AltKt == "" || w.tp.AltKt == op.Svc) {
+	if op.Alt2 && w.alt2 != nil {
+		st = w.alt2
+	} else if op.Alt && w.alt != nil && (w.tp.AltKt == "" || w.tp.AltKt == op.Svc) {
 		st, throughAlt = w.alt, true
 	}
 	if RelabelApplies(w.tp, op, throughAlt) {
